@@ -302,7 +302,19 @@ func (m *MonC03) OnEnd(w *World) []Violation {
 		var lastChange = map[string]string{}
 		for _, ev := range c.Ref.Events {
 			if !ev.Held {
-				continue // stray events are C02's business
+				// an event for a resource the client does not hold is C02's business
+				// (stray), unless the same step goes on to hand that resource over:
+				// then the event overtook the frame that first hands it to the client
+				if ev.Event != "unsubscribe" {
+					for _, h := range c.Ref.Handovers {
+						if h.RID == ev.RID && h.Fresh && !h.IsErr && h.T > ev.T && w.stepOfT(h.T) == w.stepOfT(ev.T) {
+							vs = append(vs, Violation{Property: "C03", Class: "event_before_handover", Conn: c.Idx, RID: ev.RID, T: ev.T, Step: w.stepOfT(ev.T),
+								Message: fmt.Sprintf("c%d: %s event for %s delivered at t=%d, before the frame that hands %s to the client (t=%d)", c.Idx, ev.Event, ev.RID, ev.T, ev.RID, h.T)})
+							break
+						}
+					}
+				}
+				continue
 			}
 			k := fmt.Sprintf("%s#%d", ev.RID, ev.Episode)
 			if ev.Event == "change" {
